@@ -2,8 +2,8 @@ package main
 
 // The linear-time clause: every scaling family of the specification is decoded at doubling sizes; the time per
 // call (minimum of three samples, each sample long enough to be measurable) must not grow faster than 3.2x per
-// doubling over two consecutive doublings (more than 3.2 x 3.2 over both, each of them clearly superlinear) - on the CPU clock of the measuring thread AND on the wall clock (a quadratic decoder
-// shows 4.0 on both; scheduler noise, GC and cache effects do not reach 3.2 twice in a row on both clocks).
+// doubling over three consecutive doublings (more than 3.2^3 over them, each of them clearly superlinear) - on the
+// CPU clock of the measuring thread AND on the wall clock (a quadratic decoder shows 4.0 per doubling on both).
 // Families run one after the other, never concurrently with anything else in this process.
 
 import (
@@ -220,17 +220,28 @@ func annotate(s []measured, j int) {
 	}
 }
 
-// excessAt decides the alarm for the two doublings that end at point j: the time grew by more than 3.2 x 3.2 over
-// them (the product does not depend on the noise of the middle point), each doubling is clearly superlinear, and
-// that on the CPU clock and on the wall clock.
+// span is the number of consecutive doublings an alarm needs.  Two would do against scheduler noise, but decoders
+// that recurse once per nesting level show a genuine exponent of 1.4-1.5 between 4 KiB and 64 KiB on a linear
+// implementation (the stack outgrows the caches), too close to 3.2x = 2^1.68 over two doublings only.
+const span = 3
+
+// excessAt decides the alarm for the span doublings that end at point j: the time grew by more than 3.2^span over
+// them (the product does not depend on the noise of the points in between), each doubling is clearly superlinear,
+// and that on the CPU clock and on the wall clock.
 func excessAt(s []measured, j int) bool {
-	if j < 2 || !s[j].Measured || !s[j-1].Measured {
+	if j < span {
 		return false
 	}
-	lim, each := 2*math.Log2(growthLimit), 1.3
-	a, b := s[j-1], s[j]
-	return a.ExpWall > each && b.ExpWall > each && a.ExpCPU > each && b.ExpCPU > each &&
-		a.ExpWall+b.ExpWall > lim && a.ExpCPU+b.ExpCPU > lim
+	lim, each := float64(span)*math.Log2(growthLimit), 1.3
+	var sumWall, sumCPU float64
+	for k := j - span + 1; k <= j; k++ {
+		if !s[k].Measured || s[k].ExpWall <= each || s[k].ExpCPU <= each {
+			return false
+		}
+		sumWall += s[k].ExpWall
+		sumCPU += s[k].ExpCPU
+	}
+	return sumWall > lim && sumCPU > lim
 }
 
 func deviationOfFamily(name string) string {
@@ -304,24 +315,27 @@ func scaleBatch(c *rp.Ctx, raws []json.RawMessage) []rp.Result {
 				inputs[dn] = append(inputs[dn], input)
 				if n := len(s); excessAt(s, n-1) {
 					s[n-1].Excess = true
-					// measure the three points once more: noise does not repeat itself
-					again := make([]measured, 3)
-					for j := 0; j < 3; j++ {
-						in := inputs[dn][n-3+j]
+					// measure the points of the alarm once more: noise does not repeat itself
+					again := make([]measured, span+1)
+					for j := range again {
+						in := inputs[dn][n-1-span+j]
 						w2, c2, k2, _, _, _ := measure(d, in, cs.Arg)
 						calls += int64(k2)
 						again[j] = measured{Bytes: len(in), WallUs: float64(w2) / 1e3, CPUUs: float64(c2) / 1e3, Calls: k2}
 						annotate(again, j)
 					}
-					if !excessAt(again, 2) {
+					if !excessAt(again, span) {
 						s[n-1].Unconfirmed = true
 						continue
 					}
-					what := fmt.Sprintf("decoder %s, family %s: the time per call grows faster than %.1fx per doubling over two consecutive doublings (measured twice): ", dn, cs.Name, growthLimit)
-					for _, q := range s[maxInt(0, n-4):] {
+					what := fmt.Sprintf("decoder %s, family %s: the time per call grows faster than %.1fx per doubling over three consecutive doublings (measured twice): ", dn, cs.Name, growthLimit)
+					for _, q := range s[maxInt(0, n-1-span):] {
 						what += fmt.Sprintf("%d bytes: %.0f us wall / %.0f us cpu (exponent %.2f / %.2f); ", q.Bytes, q.WallUs, q.CPUUs, q.ExpWall, q.ExpCPU)
 					}
-					what += fmt.Sprintf("again: %.0f, %.0f, %.0f us (exponents %.2f, %.2f)", again[0].WallUs, again[1].WallUs, again[2].WallUs, again[1].ExpWall, again[2].ExpWall)
+					what += "again:"
+					for _, q := range again {
+						what += fmt.Sprintf(" %.0f us (%.2f)", q.WallUs, q.ExpWall)
+					}
 					r := rp.Result{I: i, OK: false, Nontriv: true, What: what, Deviation: deviationOfFamily(cs.Name), Observed: map[string]interface{}{"series": s, "again": again}}
 					worst = &r
 					break points
